@@ -7,6 +7,7 @@ import hashlib
 import json
 import os
 import random
+import resource
 import subprocess
 import time
 
@@ -29,6 +30,14 @@ TRUSTED_CONC = [
 
 # ------------------------------------------------------------------ execution
 
+def _big_stack():
+    """the extracted list functions are not tail recursive: lift the stack limit for the model driver"""
+    try:
+        resource.setrlimit(resource.RLIMIT_STACK, (resource.RLIM_INFINITY, resource.RLIM_INFINITY))
+    except (ValueError, OSError):
+        pass
+
+
 def _write_lines(path, lines):
     with open(path, "w") as f:
         f.write("\n".join(lines))
@@ -43,7 +52,7 @@ def enum_schedules(drv, requests):
     d = common.run_dir()
     path = os.path.join(d, "enum.txt")
     _write_lines(path, [cg.encode_case(s, p, [0] if full else []) for s, p, full in requests])
-    p = subprocess.run([drv, "conc-enum", path], stdout=subprocess.PIPE, text=True, timeout=3600)
+    p = subprocess.run([drv, "conc-enum", path], stdout=subprocess.PIPE, text=True, timeout=7200, preexec_fn=_big_stack)
     if p.returncode != 0:
         raise RuntimeError("model driver (conc-enum) failed")
     out = []
@@ -61,7 +70,7 @@ def _run_chunks(cmds, timeout):
     for i, cmd in enumerate(cmds):
         path = os.path.join(d, "out_%d_%d_%d.txt" % (os.getpid(), int(time.time() * 1000) % 1000000, i))
         f = open(path, "w")
-        procs.append((subprocess.Popen(cmd, stdout=f, stderr=subprocess.DEVNULL), f, path))
+        procs.append((subprocess.Popen(cmd, stdout=f, stderr=subprocess.DEVNULL, preexec_fn=_big_stack), f, path))
     outs = []
     deadline = time.time() + timeout
     for p, f, path in procs:
@@ -246,52 +255,78 @@ def summarize(r):
 
 # ------------------------------------------------------------------ generation
 
-def gen_conc(tier, seed, drv):
-    """returns (lines, meta) where meta[i] = (kind, exact_schedule?)"""
-    rng = random.Random(seed * 1000003 + 10)
+def _enum_batch(drv, reqs):
+    """reqs: (setup, progs, full, kind) -> (lines, meta, stats)"""
     stats = collections.Counter()
     lines, meta = [], []
-    cdir = os.path.join(ROOT, "gen", "corpus", "C10")
-    if os.path.isdir(cdir):
-        for f in sorted(os.listdir(cdir)):
-            for line in open(os.path.join(cdir, f)):
-                if line.strip():
-                    lines.append(line.strip())
-                    meta.append(("corpus", False))
-                    stats["corpus"] += 1
-    # 1. exhaustive: every schedule (enumerated by the model itself)
-    reqs = []
-    setups = cg.SETUPS + [cg.SETUP_PENDING]
-    shapes = [(2, 2), (3, 1)] if tier == "quick" else [(2, 2), (3, 1), (3, 2)]
-    for setup in setups:
-        # every atomic step a scheduling point, two threads, one op each: nothing reduced
-        for progs in cg.program_tuples(setup, 2, 1, False):
-            reqs.append((setup, progs, True, "all schedules 2x1 (every step)"))
-        for (nt, no) in shapes:
-            reduced = tier == "quick" or (nt, no) == (3, 2)
-            for progs in cg.program_tuples(setup, nt, no, reduced):
-                if (nt, no) == (3, 2) and sum(1 for p in progs for o in p if o[0] == 1) > 4:
-                    continue    # more than four creations: > 10^6 schedules per tuple; sampled randomly below
-                reqs.append((setup, progs, False, "all schedules %dx%d" % (nt, no)))
     scheds = enum_schedules(drv, [(s, p, f) for s, p, f, _ in reqs])
     for (setup, progs, full, kind), ss in zip(reqs, scheds):
-        for s in ss:
-            lines.append(cg.encode_case(setup, progs, s))
+        for sch in ss:
+            lines.append(cg.encode_case(setup, progs, sch))
             meta.append((kind, True))
         stats[kind] += len(ss)
         stats["program tuples"] += 1
+    return lines, meta, stats
+
+
+def n_creates(progs):
+    return sum(1 for p in progs for o in p if o[0] == 1)
+
+
+def gen_conc(tier, seed, drv):
+    """yields batches (lines, meta, stats); meta[i] = (kind, schedule is exact: complete and without no-op entries)"""
+    rng = random.Random(seed * 1000003 + 10)
+    setups = cg.SETUPS + [cg.SETUP_PENDING]
+    # 0. corpus of minimised failures
+    cdir = os.path.join(ROOT, "gen", "corpus", "C10")
+    if os.path.isdir(cdir):
+        lines = [l.strip() for f in sorted(os.listdir(cdir)) for l in open(os.path.join(cdir, f)) if l.strip()]
+        if lines:
+            yield lines, [("corpus", False)] * len(lines), collections.Counter(corpus=len(lines))
+    # 1. exhaustive: every schedule (enumerated by the model itself)
+    quick = tier == "quick"
+    for setup in setups:
+        reqs = []
+        # every atomic step a scheduling point, two threads, one op each: nothing reduced
+        for progs in cg.program_tuples(setup, 2, 1, False):
+            reqs.append((setup, progs, True, "all schedules 2x1 (every step)"))
+        for (nt, no) in [(2, 2), (3, 1)]:
+            for progs in cg.program_tuples(setup, nt, no, quick):
+                reqs.append((setup, progs, False, "all schedules %dx%d" % (nt, no)))
+        if quick:
+            yield _enum_batch(drv, reqs)
+        else:
+            for k in range(0, len(reqs), 300):
+                yield _enum_batch(drv, reqs[k:k + 300])
+    if not quick:
+        # 3 threads x 2 ops: exhaustive for the tuples with at most one creation (a tuple with two has ~10^5
+        # schedules, with four > 10^6); the others under random schedules
+        for setup in [cg.SETUPS[1], cg.SETUP_PENDING]:
+            reqs = [(setup, progs, False, "all schedules 3x2 (at most one creation)")
+                    for progs in cg.program_tuples(setup, 3, 2, True) if n_creates(progs) <= 1]
+            for k in range(0, len(reqs), 100):
+                yield _enum_batch(drv, reqs[k:k + 100])
+        lines = []
+        for setup in setups:
+            for progs in cg.program_tuples(setup, 3, 2, True):
+                if n_creates(progs) >= 2:
+                    for _ in range(40):
+                        lines.append(cg.encode_case(setup, progs, cg.random_schedule(rng, progs)))
+        for k in range(0, len(lines), 200000):
+            ch = lines[k:k + 200000]
+            yield ch, [("3x2 tuples with two or more creations, random schedules", False)] * len(ch), \
+                collections.Counter({"3x2 tuples with two or more creations, random schedules": len(ch)})
     # 2. random programs and schedules
-    n_rand = 3000 if tier == "quick" else 60000
-    max_t, max_o = (4, 4) if tier == "quick" else (8, 6)
+    n_rand = 3000 if quick else 60000
+    max_t, max_o = (4, 4) if quick else (8, 6)
+    lines = []
     for _ in range(n_rand):
         setup = rng.choice(setups + [(rng.randint(0, 6), 0, 1)])
         nc = setup[0]
         setup = (nc, rng.randint(0, nc), rng.choice([0, 1, 1, 2])) if rng.random() < 0.5 else setup
         progs = cg.random_programs(rng, setup, rng.randint(2, max_t), max_o)
         lines.append(cg.encode_case(setup, progs, cg.random_schedule(rng, progs)))
-        meta.append(("random", False))
-        stats["random programs and schedules"] += 1
-    return lines, meta, stats
+    yield lines, [("random", False)] * len(lines), collections.Counter({"random programs and schedules": len(lines)})
 
 
 def shrink_case(line, budget=60):
@@ -339,47 +374,80 @@ def check_conc(pid, tier, seed, props, proof_obligations, trusted_common):
     p = props[pid]
     proof = proof_obligations(pid, tier)
     hooks_missing = False
+    violations, diverged, badhyp = [], [], 0
+    n_eval = n_eq = n_ok = n_distinct = n_nontriv = 0
+    seen_random = set()
+    hist = collections.Counter()
+    gstats = collections.Counter()
+    samples_r = []
+    release_lines = []
+
+    def absorb(results, meta):
+        nonlocal badhyp, n_eval, n_eq, n_ok, n_distinct, n_nontriv
+        for r, (kind, exact) in zip(results, meta):
+            n_eval += 1
+            n_eq += 1 if r["eq"] else 0
+            n_ok += 1 if r["ok"] else 0
+            if exact:
+                n_distinct += 1       # enumerated cases are pairwise distinct by construction
+            else:
+                h = hashlib.sha1(r["case"].encode()).digest()[:8]
+                if h not in seen_random:
+                    seen_random.add(h)
+                    n_distinct += 1
+            if not r["hyp"]:
+                badhyp += 1
+            v = conc_violation(r)
+            if v:
+                if len(violations) < 50:
+                    violations.append((v, r))
+            elif not r["eq"]:
+                if len(diverged) < 50:
+                    diverged.append(r)
+            if r["decoded"]:
+                outs = thread_outputs(parse_tr(r["impl"]))
+                for t in outs:
+                    for o in t:
+                        hist[o[0] + ("-err" if o[0] == "kill" and o[2] is not None else "")] += 1
+                if exact:
+                    _, _, sched = cg.decode_case(r["case"])
+                    if len(sched) > min_steps(outs):
+                        n_nontriv += 1
+        if results:
+            samples_r.append(results[len(results) // 2])
+
     try:
         common.build_harness(False)
         drv = common.build_ocaml()
-        lines, meta, gstats = gen_conc(tier, seed, drv)
-        results = run_conc(lines, nthreads_hint=3)
-        if tier == "thorough":
-            rel = run_conc(lines[:min(len(lines), 200000)], nthreads_hint=3, release=True)
-            results = results + rel
-            meta = meta + meta[:len(rel)]
+        first = True
+        for lines, meta, st in gen_conc(tier, seed, drv):
+            gstats.update(st)
+            results = run_conc(lines, nthreads_hint=3)
+            if first and results and all(r["impl"].startswith("98") for r in results[:5]):
+                hooks_missing = True
+            first = False
+            absorb(results, meta)
+            if tier == "thorough" and len(release_lines) < 300000:
+                step = max(1, len(lines) // 20000)
+                release_lines += list(zip(lines[::step], meta[::step]))
+            log("  %d cases so far (%.0fs)" % (n_eval, time.time() - t0))
+            if len(violations) >= 50:
+                break
+        if tier == "thorough" and not violations:
+            # release build as well (no overflow checks / debug assertions)
+            rl = [l for l, _ in release_lines]
+            absorb(run_conc(rl, nthreads_hint=3, release=True), [m for _, m in release_lines])
+            gstats["re-run on the release build"] = len(rl)
     except RuntimeError as e:
         proof["failures"].append("build/execution failed: " + str(e)[-1500:])
-        results, meta, gstats, lines = [], [], collections.Counter(), []
-    if results and all(r["impl"].startswith("98") for r in results[:5]):
-        hooks_missing = True
+        if "verif_sched" in str(e) or "hook" in str(e):
+            hooks_missing = True
+    results_seen = n_eval > 0
 
-    violations, diverged, badhyp = [], [], 0
-    distinct, nontriv = set(), set()
-    hist = collections.Counter()
-    for r, (kind, exact) in zip(results, meta):
-        key = hashlib.sha1(r["case"].encode()).hexdigest()
-        distinct.add(key)
-        if not r["hyp"]:
-            badhyp += 1
-        v = conc_violation(r)
-        if v:
-            violations.append((v, r))
-        elif not r["eq"]:
-            diverged.append(r)
-        if r["decoded"]:
-            outs = thread_outputs(parse_tr(r["impl"]))
-            for t in outs:
-                for o in t:
-                    hist[o[0] + ("-err" if o[0] == "kill" and o[2] is not None else "")] += 1
-            if exact:
-                _, _, sched = cg.decode_case(r["case"])
-                if len(sched) > min_steps(outs):
-                    nontriv.add(key)
     if badhyp:
         proof["failures"].append("%d generated cases do not satisfy the hypothesis of the theorems (hinit_okb)" % badhyp)
     for need in ("handle", "kill", "kill-err", "alive", "push"):
-        if results and hist[need] == 0:
+        if results_seen and not violations and hist[need] == 0:
             proof["failures"].append("generator bucket empty: " + need)
 
     # stress run on real threads (no scheduler): the only sampling of non-SC behaviour
@@ -389,7 +457,7 @@ def check_conc(pid, tier, seed, props, proof_obligations, trusted_common):
         sparams = [(16, 12500, 5, 64, seed), (16, 12500, 5, 2, seed + 1), (8, 25000, 5, 1024, seed + 2),
                    (4, 50000, 5, 8, seed + 3), (16, 2000, 30, 16, seed + 4)]
     stress = []
-    if not proof["failures"] or results:
+    if results_seen:
         try:
             stress = run_stress(sparams, release=True)
         except RuntimeError as e:
@@ -429,7 +497,7 @@ def check_conc(pid, tier, seed, props, proof_obligations, trusted_common):
         # the required correspondence (corr:conc/faithful) or a proof obligation fails while the predicate held
         # on everything seen: search for a failing input with ten times the random budget
         extra = []
-        if results:
+        if results_seen:
             rng = random.Random(seed + 7919)
             for _ in range(30000):
                 setup = rng.choice(cg.SETUPS + [cg.SETUP_PENDING])
@@ -461,10 +529,11 @@ def check_conc(pid, tier, seed, props, proof_obligations, trusted_common):
             print("VIOLATION property=%s replay=%s no-failing-input-found" % (pid, replay))
         rc = 1
 
-    n = len(results)
-    samples = [summarize(r) for r in (results[:1] + results[n // 2:n // 2 + 1] + results[-1:])] if results else []
-    corr_ok = bool(results) and not diverged and not violations
-    ok_all = bool(results) and not violations and not stress_fail
+    n = n_eval
+    pick = samples_r[:1] + samples_r[len(samples_r) // 2:len(samples_r) // 2 + 1] + samples_r[-1:]
+    samples = [summarize(r) for r in pick]
+    corr_ok = results_seen and not diverged and not violations
+    ok_all = results_seen and not violations and not stress_fail
     ev = dict(
         property_id=pid, tier=tier, seed=seed, level="proof",
         coverage=dict(
@@ -475,11 +544,9 @@ def check_conc(pid, tier, seed, props, proof_obligations, trusted_common):
             trusted_base=trusted_common + TRUSTED_CONC,
             theorems=proof["theorems"], axioms=proof["axioms"], proof_failures=proof["failures"],
             correspondence=dict(required="corr:conc/faithful",
-                                faithful_equal=sum(1 for r in results if r["eq"]),
-                                faithful_diverged=sum(1 for r in results if not r["eq"]),
-                                predicate_true=sum(1 for r in results if r["ok"]),
-                                predicate_false=sum(1 for r in results if not r["ok"])),
-            evaluations=n, distinct=len(distinct), distinct_nontrivial=len(nontriv),
+                                faithful_equal=n_eq, faithful_diverged=n_eval - n_eq,
+                                predicate_true=n_ok, predicate_false=n_eval - n_ok),
+            evaluations=n, distinct=n_distinct, distinct_nontrivial=n_nontriv,
             rule="cases = (sequential prefix, one program per thread, schedule). Program tuples: every tuple of programs "
                  "of the stated shape over the op alphabet {create, delete(live initial), delete(own 0), is_alive, push, "
                  "delete(dead/pending initial)} (quick: {create, delete(live initial), delete(own 0), push}), up to "
@@ -496,7 +563,7 @@ def check_conc(pid, tier, seed, props, proof_obligations, trusted_common):
                  "compare-exchange failed and was retried (schedule longer than the contention-free step count)"
                  % ((4, 4) if tier == "quick" else (8, 6)),
             generator=dict(gstats), output_histogram=dict(hist),
-            samples=samples, exhaustive=bool(results) and not hooks_missing,
+            samples=samples, exhaustive=results_seen and not hooks_missing,
             exhaustive_note="exhaustive over the enumerated program shapes and schedules as stated in rule; the random part is a sample",
             stress=dict(params=[list(x) for x in sparams], results=stress, operations=stress_ops,
                         note="threads, ops per thread and round, rounds, initial free-list size, seed; unhooked release "
